@@ -88,7 +88,7 @@ FuncSpace ==
      stmt |-> Statements,
      expr |-> Expressions,
      ret |-> {"bool", "none", "int", "missing", "str_annot"},
-     args |-> {"one", "noargs", "two", "kwonly", "default", "vararg", "untyped", "ourtype"},
+     args |-> {"one", "noargs", "two", "kwonly", "default", "vararg", "untyped", "ourtype", "dup_arg"},
      deco |-> {"verification", "missing", "called", "impl", "impl_only", "unknown", "require", "ensure_odd",
              "snapshot"}]
 FuncDefault ==
@@ -122,15 +122,16 @@ ClassSpace ==
              "prop_attr_target", "prop_unicode", "prop_reserved", "prop_dup", "prop_docstring_twice",
              "nested_class", "stmt_if", "stmt_expr", "class_var_assign", "method", "method_impl",
              "method_static", "method_no_self", "method_contracts", "method_contract_odd", "method_snapshot",
-             "method_dunder", "method_async", "method_lambda", "property_deco", "bad_docstring"},
+             "method_dunder", "method_async", "method_lambda", "property_deco", "bad_docstring", "method_dup",
+             "method_verification"},
      ann |-> {"str", "int_list", "optional", "ourtype", "forward_str", "unknown", "list_bare", "optional_bare",
             "list_two", "optional_two", "optional_optional", "list_optional", "set", "dict", "none",
             "union_bar", "callable", "attr", "literal_int", "tuple", "ellipsis_sub", "lambda", "nested_deep",
-            "self_ref", "enum", "cprim"},
+            "self_ref", "enum", "cprim", "str_subscript", "str_empty"},
      ctor |-> {"auto", "missing", "no_self", "extra_arg", "missing_arg", "wrong_type", "default_not_none",
              "optional_no_default", "vararg", "kwarg", "kwonly", "body_pass", "body_stmt", "assign_other",
              "assign_twice", "assign_expr", "super_call", "base_init_pos", "returns_int", "require_ok",
-             "require_odd", "docstring", "async", "lambda_default", "posonly"}]
+             "require_odd", "docstring", "async", "lambda_default", "posonly", "dup_arg", "impl_specific"}]
 ClassDefault ==
     [k |-> "class", name |-> "ok", bases |-> "dbc", deco |-> "none", body |-> "prop", ann |-> "str",
      ctor |-> "auto"]
